@@ -22,9 +22,98 @@ fn main() {
         .and_then(|s| s.parse().ok())
         .unwrap_or(0);
     let code = match id.as_str() {
+        "C11" | "C12" | "C14" | "C18" | "C19" => comp_check(&id, &tier, seed, &args),
         _ => sim_check(&id, &tier, seed, &args),
     };
     std::process::exit(code);
+}
+
+fn comp_check(id: &str, tier: &str, seed: u64, args: &[String]) -> i32 {
+    use vengine::comp::*;
+    let spec = comp_spec(id).unwrap();
+    if let Some(path) = arg_val(args, "--replay") {
+        let text = match std::fs::read_to_string(&path) {
+            Ok(t) => t,
+            Err(e) => {
+                eprintln!("{}: {}", path, e);
+                return 2;
+            }
+        };
+        let v: serde_json::Value = match serde_json::from_str(&text) {
+            Ok(v) => v,
+            Err(e) => {
+                eprintln!("{}: {}", path, e);
+                return 2;
+            }
+        };
+        return match replay_comp(id, &v["case"]) {
+            Ok(()) => {
+                println!("replay: property held");
+                0
+            }
+            Err(e) => {
+                println!("replay: {}", e);
+                println!("VIOLATION property={} replay={}", id, path);
+                1
+            }
+        };
+    }
+    // saved regressions
+    let mut regressions = 0;
+    if let Ok(rd) = std::fs::read_dir(format!("/verif/regressions/{}", id)) {
+        let mut files: Vec<_> = rd.filter_map(|e| e.ok()).map(|e| e.path()).filter(|p| p.extension().map_or(false, |x| x == "json")).collect();
+        files.sort();
+        for p in files {
+            let ps = p.to_string_lossy().to_string();
+            if let Ok(t) = std::fs::read_to_string(&p) {
+                if let Ok(v) = serde_json::from_str::<serde_json::Value>(&t) {
+                    regressions += 1;
+                    if let Err(e) = replay_comp(id, &v["case"]) {
+                        println!("regression {}: {}", ps, e);
+                        println!("VIOLATION property={} replay={}", id, ps);
+                        return 1;
+                    }
+                }
+            }
+        }
+    }
+    let thorough = tier == "thorough";
+    let cases: u32 = arg_val(args, "--cases").and_then(|s| s.parse().ok()).unwrap_or(if thorough { spec.thorough } else { spec.quick });
+    let workers: usize = arg_val(args, "--workers").and_then(|s| s.parse().ok()).unwrap_or(if thorough { 16 } else { 8 });
+    let out = run_comp(id, cases, seed, workers, thorough).unwrap();
+    let samples = if out.samples.is_empty() { vec![serde_json::json!("no non-trivial case in this run")] } else { out.samples.clone() };
+    let ev = serde_json::json!({
+        "property_id": id, "tier": tier, "seed": seed, "level": "exploration",
+        "coverage": {
+            "evaluations": out.evaluations,
+            "distinct_nontrivial": out.nontrivial,
+            "rule": spec.rule,
+            "samples": samples,
+            "regressions_replayed": regressions,
+            "workers": workers,
+        },
+        "assumptions": [
+            "the reference model in engine/src/comp_*.rs is correct (it is small and written from the documented semantics)",
+            "operations whose documented contract is a panic are not generated",
+            "C14 runs RaftLog over SimStore, the simulator's conforming Storage implementation",
+        ],
+        "wall_s": out.wall_s,
+        "violations": if out.failure.is_some() { 1 } else { 0 },
+    });
+    let _ = std::fs::create_dir_all("/verif/evidence");
+    let _ = std::fs::write(format!("/verif/evidence/{}.json", id), serde_json::to_string_pretty(&ev).unwrap());
+    println!("{} {}: {} cases, {} distinct non-trivial, {:.1}s", id, tier, out.evaluations, out.nontrivial, out.wall_s);
+    if let Some((why, case)) = out.failure {
+        let _ = std::fs::create_dir_all("/verif/replays");
+        let h = vengine::store::mix(0xcbf29ce484222325, case.to_string().as_bytes());
+        let path = format!("/verif/replays/{}-{:016x}.json", id, h);
+        let j = serde_json::json!({"property": id, "tier": tier, "seed": seed, "violation": why, "case": case});
+        let _ = std::fs::write(&path, serde_json::to_string_pretty(&j).unwrap());
+        println!("{}", why);
+        println!("VIOLATION property={} replay={}", id, path);
+        return 1;
+    }
+    0
 }
 
 fn sim_check(id: &str, tier: &str, seed: u64, args: &[String]) -> i32 {
